@@ -244,6 +244,16 @@ theorem ParsesTo.follow {α : Type} {parse : PState → PR α} {er : α → α} 
 theorem headIn_length_pos {ks : List Token} {ts : List PTok} (h : headIn ks ts) : 1 ≤ ts.length := by
   obtain ⟨t, r, k, e, -, -⟩ := h; subst e; simp
 
+theorem flatMap_mem_length {α β : Type} (f : α → List β) (xs : List α) (x : α) (hx : x ∈ xs) :
+    (f x).length ≤ (xs.flatMap f).length := by
+  induction xs with
+  | nil => cases hx
+  | cons y ys ih =>
+    simp only [List.flatMap_cons, List.length_append]
+    rcases List.mem_cons.1 hx with rfl | h
+    · omega
+    · have := ih h; omega
+
 /-! ### one iteration of `parseDelimited` -/
 
 theorem parseDelimited_stop {α : Type} {stop : Token} {wc : Bool} {peeks : List Token}
